@@ -18,7 +18,7 @@ extern "C" void verif_assume(int cond) { if (!cond) g_assume_failed = 1; }
 extern "C" void verif_assume(int cond);          // symbolic engine: assumption on the path (path ends if it cannot hold)
 #endif
 
-enum { K_WRITE = 1, K_FSYNC, K_CLOSE, K_DUP, K_FSTAT, K_GZDOPEN, K_GZWRITE, K_GZCLOSE, K_FDOPEN, K_FCLOSE, K_BZWOPEN, K_BZWRITE, K_BZWCLOSE };
+enum { K_WRITE = 1, K_FSYNC, K_CLOSE, K_DUP, K_FSTAT, K_GZDOPEN, K_GZWRITE, K_GZCLOSE, K_FDOPEN, K_FCLOSE, K_BZWOPEN, K_BZWRITE, K_BZWCLOSE, K_GZREAD, K_GZCLOSER, K_GZOFFSET };
 static int g_stdio_fd = -1;
 static const long* g_rets; static const int* g_errnos; static unsigned g_nscript, g_ncalls;
 static long* g_calllog; static unsigned g_logcap;
@@ -51,6 +51,19 @@ gzFile gzdopen(int fd, const char*) { const long r = next_ret(K_GZDOPEN, fd, 0, 
 int gzwrite(gzFile, voidpc buf, unsigned len) { const long r = next_ret(K_GZWRITE, 0, len, buf); verif_assume(r == 0 || r == static_cast<long>(len)); return static_cast<int>(r); }
 int gzclose_w(gzFile) { const long r = next_ret(K_GZCLOSE, 0, 0, nullptr); verif_assume(r == 0 || (r >= -6 && r <= -1)); return static_cast<int>(r); }
 const char* gzerror(gzFile, int* errnum) { *errnum = -1; return "stub"; }
+// zlib reading: gzread returns -1 on error (also for a damaged or truncated stream) or the number of uncompressed bytes stored (0 at the end);
+// the stub marks the first and the last byte it "stored" with the call number; gzoffset is the compressed position, never beyond the file;
+// gzclose_r returns Z_OK, or Z_BUF_ERROR when the last read ended in the middle of a stream, or another error code
+int gzread(gzFile, voidp buf, unsigned len) {
+    const unsigned call = g_ncalls;
+    const long r = next_ret(K_GZREAD, 0, len, nullptr); verif_assume(r >= -1 && r <= static_cast<long>(len));
+    if (r > 0) { static_cast<unsigned char*>(buf)[0] = static_cast<unsigned char>(0x40 + call); static_cast<unsigned char*>(buf)[r - 1] = static_cast<unsigned char>(0x40 + call); }
+    return static_cast<int>(r);
+}
+static long g_file_size = 0, g_last_offset = 0;
+z_off_t gzoffset(gzFile) { const long r = next_ret(K_GZOFFSET, 0, 0, nullptr); verif_assume(r >= g_last_offset && r <= g_file_size); g_last_offset = r; return r; }
+int gzclose_r(gzFile) { const long r = next_ret(K_GZCLOSER, 0, 0, nullptr); verif_assume(r == 0 || (r >= -6 && r <= -1)); return static_cast<int>(r); }
+int posix_fadvise(int, off_t, off_t, int) noexcept { return 0; }
 // stdio on a descriptor: fdopen returns a stream or NULL + errno; fclose returns 0 or EOF + errno; fileno gives the descriptor back
 FILE* fdopen(int fd, const char*) noexcept { const long r = next_ret(K_FDOPEN, fd, 0, nullptr); verif_assume(r == 1 || r == -1); g_stdio_fd = fd; return r == 1 ? reinterpret_cast<FILE*>(const_cast<int*>(g_errnos)) : nullptr; }
 int fclose(FILE*) { const long r = next_ret(K_FCLOSE, g_stdio_fd, 0, nullptr); verif_assume(r == 0 || r == -1); return static_cast<int>(r); }
@@ -149,5 +162,31 @@ ENTRY int verif_bzip2_compressor(int fd, int sync, unsigned long size_a, unsigne
         c->close(); *stage = 4;
         *fsize = c->file_size();
     } catch (const osmium::bzip2_error&) { rc = 2; } catch (const std::system_error&) { rc = 1; } catch (...) { rc = 3; }
+    return result(rc, ncalls);
+}
+
+// GzipDecompressor: construct, nreads x read(), close().  per read: lens[k] = length of the returned string (or -2 gzip_error, -3 other), marks[k] = first
+// byte | last byte << 8, offs[k] = offset() reported afterwards.  rc of the whole run: 0 normal, 2 gzip_error, 1 system_error, 3 other (the first exception ends the run)
+ENTRY int verif_gzip_decompressor(int fd, long file_size, unsigned nreads, const long* rets, const int* errnos, unsigned n, long* calllog, unsigned logcap,
+                                  unsigned* ncalls, unsigned* stage, long* lens, unsigned* marks, unsigned long* offs) {
+    script(rets, errnos, n, calllog, logcap, nullptr);
+    g_file_size = file_size; g_last_offset = 0;
+    int rc = 0; *stage = 0;
+    std::atomic<std::size_t> offset{0};
+    try {
+        struct Holder { alignas(osmium::io::GzipDecompressor) unsigned char mem[sizeof(osmium::io::GzipDecompressor)]; } h;
+        auto* d = new (h.mem) osmium::io::GzipDecompressor{fd};
+        d->set_offset_ptr(&offset);
+        *stage = 1;
+        for (unsigned k = 0; k < nreads; ++k) {
+            const std::string data = d->read();
+            lens[k] = static_cast<long>(data.size());
+            marks[k] = data.empty() ? 0U : (static_cast<unsigned char>(data.front()) | (static_cast<unsigned>(static_cast<unsigned char>(data.back())) << 8U));
+            offs[k] = offset.load();
+            *stage = 2 + k;
+        }
+        d->close(); *stage = 100;
+        d->close(); *stage = 101;
+    } catch (const osmium::gzip_error&) { rc = 2; } catch (const std::system_error&) { rc = 1; } catch (...) { rc = 3; }
     return result(rc, ncalls);
 }
